@@ -10,7 +10,8 @@ import (
 )
 
 // VerifC06_Read: copies of one key with arbitrary (solver-chosen, possibly equal) timestamps are spread over the
-// primary owner, a previous owner and the backup owners; any of the remote holders may be unreachable; ReadQuorum is
+// primary owner, a previous owner (a member of its own, or the first backup owner, which then holds two copies) and
+// the backup owners; any of the remote holders may be unreachable; ReadQuorum is
 // symbolic. A read through the owner (or forwarded from a bystander) returns a value only if at least ReadQuorum
 // copies were obtained, fails with the read-quorum error when some but too few copies were obtained, returns the
 // copy with the newest timestamp among those obtained, and with read-repair on brings the owner's own copy and
@@ -19,12 +20,19 @@ func VerifC06_Read() {
 	r := 2 + vpChoose("replicas", 2) // 2 or 3 copies: primary + (r-1) backups
 	rq := vpRange("RQ", 1, r)
 	repair := vpBool("readrepair")
-	withPrev := vpBool("prevowner")
+	// previous primary owner: none, a member of its own, or member 1 - which is also the first backup owner and so
+	// holds two copies of the key (a primary-fragment one and a backup-fragment one)
+	prevKind := vpChoose("prevowner", 3)
+	withPrev := prevKind != 0
+	prevMember := r
+	if prevKind == 2 {
+		prevMember = 1
+	}
 	n := r + 2 // members: 0 primary, 1..r-1 backups, r previous owner, r+1 bystander
 	cl := vpNewCluster(vpClusterConfig{members: n, replicaCount: r, writeQuorum: 1, readQuorum: rq, partitions: 1, readRepair: repair})
 	primaryOwners := []int{0}
 	if withPrev {
-		primaryOwners = []int{r, 0}
+		primaryOwners = []int{prevMember, 0}
 	}
 	cl.vpSetOwners(0, primaryOwners, vpIntList(1, r))
 
@@ -41,7 +49,10 @@ func VerifC06_Read() {
 		hs = append(hs, &holder{m: i, kind: partitions.BACKUP})
 	}
 	if withPrev {
-		hs = append(hs, &holder{m: r, kind: partitions.PRIMARY})
+		hs = append(hs, &holder{m: prevMember, kind: partitions.PRIMARY})
+	}
+	for m := 1; m <= r; m++ {
+		cl.members[m].down = vpBool("down")
 	}
 	for i, h := range hs {
 		h.present = vpBool("present")
@@ -49,10 +60,7 @@ func VerifC06_Read() {
 			h.ts = int64(vpRange("ts", 1, 1000))
 			vpPlace(cl.members[h.m], "d", "k", []byte{byte('A' + i)}, 0, h.ts, h.kind)
 		}
-		if h.m != 0 {
-			h.down = vpBool("down")
-			cl.members[h.m].down = h.down
-		}
+		h.down = cl.members[h.m].down
 	}
 	entry := 0
 	if vpBool("viabystander") {
